@@ -370,7 +370,11 @@ def main_check(prop_id, tier, replay=None):
     # 2. search
     if failure is None:
         if tier == 'quick':
-            for name, strat, budget in strategies_for(mod, tier):
+            # finite sub-domains small enough for every run are enumerated first
+            exhaustive_text, fail = run_exhaustive(mod, tier, coll, known)
+            if fail is not None:
+                failure = (fail[0], fail[1], 'exhaustive')
+            for name, strat, budget in ([] if failure else strategies_for(mod, tier)):
                 fail = run_hypothesis(mod, tier, seed, budget, coll, known, strat, name)
                 if fail is not None:
                     failure = (fail[0], fail[1], name)
